@@ -208,6 +208,18 @@ def step_oracles(term, props, ops, recs, fails):
                 if i < len(pre) and pre[i] == ob:
                     continue
                 o_c15_render(term, ob, fails, {'step': t, 'object': i})
+                # is_formatting_valid / is_formatting_parsable are the conjunction over the settings in use:
+                # a True flag with an invalid / unparsable setting on some character is wrong (flags per
+                # setting text come from the extracted model's valid / parsable, proved exact in C15.v)
+                used = sorted(set(tx for l in ob[CHARS] for (_, tx) in l))
+                infos = [(tx, term.info(tx)) for tx in used]
+                if all(inf is not None for _, inf in infos):
+                    bad_v = [tx for tx, inf in infos if not inf[0]]
+                    bad_p = [tx for tx, inf in infos if not inf[1]]
+                    if ob[VALID] and bad_v:
+                        fails.append({'oracle': 'C15.conj', 'step': t, 'msg': 'is_formatting_valid() is True although the invalid setting(s) %s are in use on object %d' % (bad_v, i)})
+                    if ob[PARSABLE] and bad_p and all(tx.isascii() for tx in used):
+                        fails.append({'oracle': 'C15.conj', 'step': t, 'msg': 'is_formatting_parsable() is True although the unparsable setting(s) %s are in use on object %d' % (bad_p, i)})
 
 
 def operand_obs(pre, x):
@@ -549,8 +561,16 @@ def o_c11(term, t, op, pre, post, ridx, fails):
             nb, nchars = pre[new[1]][BASE], [texts(l) for l in pre[new[1]][CHARS]]
         else:
             if '\x1b' in new[1]:
-                return
-            nb, nchars = new[1], None
+                # an ANSI-coded str replacement: its text is the raw string minus its SGR sequences (read left
+                # to right); its own settings combine with those of the match, so only the text and the
+                # characters outside the matches are checked
+                from .direct2 import strip_sgr
+                nb = strip_sgr(new[1])
+                if '\x1b' in nb:
+                    return
+                nchars = [None] * len(nb)
+            else:
+                nb, nchars = new[1], None
         exp_text, exp_chars = [], []
         pos = 0
         while True:
@@ -571,7 +591,7 @@ def o_c11(term, t, op, pre, post, ridx, fails):
             fails.append({'oracle': 'C11.replace.text', 'step': t, 'msg': 'text %r, expected %r' % (res[BASE], ''.join(exp_text))})
             return
         for k, (e, l) in enumerate(zip(exp_chars, res[CHARS])):
-            if not prec_equiv(term, e, texts(l)):
+            if e is not None and not prec_equiv(term, e, texts(l)):
                 fails.append({'oracle': 'C11.replace', 'step': t, 'msg': 'character %d reports %s, expected %s' % (k, texts(l), e)})
                 return
 
